@@ -368,6 +368,11 @@ func (rp *ReverseProxy) ServeHTTP(rw http.ResponseWriter, outreq *http.Request, 
 	if err != nil {
 		return err
 	}
+	if res.StatusCode < 100 || res.StatusCode > 999 {
+		// the standard library accepts any three-digit status from a backend, ResponseWriter.WriteHeader does not
+		res.Body.Close()
+		return fmt.Errorf("backend sent an invalid status code: %d", res.StatusCode)
+	}
 
 	isWebsocket := res.StatusCode == http.StatusSwitchingProtocols && strings.EqualFold(res.Header.Get("Upgrade"), "websocket")
 
